@@ -201,9 +201,9 @@ func runqueryQueries(c *gen.Ctx, features map[string]string, done []Step, last b
 	for i := 0; i < nT; i++ {
 		res := gen.Pick(r, []string{"transactions", "accounts", "logs", "volumes"})
 		depth := r.Intn(4)
-		noGenericBalance = true
+		noGenericBalance, noMetaIn = true, true
 		concrete := genFilterTree(r, res, dates, ntx, depth)
-		noGenericBalance = false
+		noGenericBalance, noMetaIn = false, false
 		t := &templater{c: c, decls: map[string]any{}, call: map[string]VarVal{}}
 		var body any
 		if i == 0 && r.Intn(2) == 0 {
